@@ -200,8 +200,10 @@ static void janet_escape_buffer_b(JanetBuffer *buffer, JanetBuffer *bx) {
         if (needed > INT32_MAX) janet_panic("buffer overflow");
         janet_buffer_ensure(bx, (int32_t) needed, 1);
     }
+    /* When escaping a buffer into itself, the text to escape ends before the '@' */
+    int32_t count = bx->count;
     janet_buffer_push_u8(buffer, '@');
-    janet_escape_string_impl(buffer, bx->data, bx->count);
+    janet_escape_string_impl(buffer, bx->data, count);
 }
 
 void janet_to_string_b(JanetBuffer *buffer, Janet x) {
